@@ -8,8 +8,9 @@
     the FEATURE pass reads, whatever produced [I]. *)
 From Coq Require Import List Ascii String ZArith NArith Bool Lia Permutation.
 From Shexer Require Import Lib.PyStr Lib.Dict Lib.Bin64 Gen.Consts Spec.Rdf Spec.Restrict Model.Tracker Model.Profiler
-  Model.Tokens Model.Freq Model.FreqInst Model.Shexing Model.Run Model.NsFilter Model.Run2 Spec.Counts
-  Proofs.DictLemmas Proofs.ProfileChar Proofs.ShexLemmas Proofs.ShexKeys Proofs.EndToEnd Proofs.RestrictProofs.
+  Model.Tokens Model.Freq Model.FreqInst Model.Shexing Model.ShexingFix Model.Run Model.NsFilter Model.Run2 Model.RunCur Spec.Counts
+  Proofs.DictLemmas Proofs.ProfileChar Proofs.ShexLemmas Proofs.ShexKeys Proofs.EndToEnd Proofs.RestrictProofs
+  Proofs.ShexingFixProofs.
 Import ListNotations.
 Local Open Scope N_scope.
 
@@ -128,6 +129,34 @@ Section Composed2.
     intros st Hin. specialize (Hst st Hin). split; [apply (post_ok_inv2 ce st Hce Hst)|].
     apply (post_ok_R cfg (class_pd cfg ce (s_inv st)) _ st); [|exact Hst]. intros ty n pr c0. apply fig_src_occ2. exact Hce.
   Qed.
+
+  (** the same for the stage in the order the code has ([ShexingFix.shex_cur]) *)
+  Lemma post_okR_inv2 ce t :
+    In ce P -> post_okR cfg (fig_src (class_pd cfg ce (s_inv t)) (s_prop t)) t -> s_inv t = true -> r_inverse c = true.
+  Proof.
+    intros Hce (ty & pr0 & c0 & _ & _ & Hf & _) Hi.
+    assert (He : exists k ck n, pd_entry (class_pd cfg ce (s_inv t)) (s_prop t) k ck n).
+    { destruct Hf as [k ck n He | ckb nb cki ni Hb _]; eauto. }
+    destruct He as (k & ck & n & He). destruct (pd_entry_occ2 ce _ _ _ _ _ Hce He) as (_ & _ & H). auto.
+  Qed.
+
+  Hypothesis Hcur : shex_cur fa cfg thr P C = inl shapes.
+
+  Lemma composed_shape2_cur sh :
+    In sh shapes ->
+    In (sh_class sh) (class_keys targets I) /\
+    sh_name sh = shape_name (r_shapes_ns c) (sh_class sh) /\
+    sh_n sh = class_count I (sh_class sh) /\
+    forall st, In st (sh_stmts sh) ->
+      (s_inv st = true -> r_inverse c = true) /\
+      post_okR cfg (fig_occ tau I g (dir_of (s_inv st)) (sh_class sh) (s_prop st)) st.
+  Proof.
+    intros Hsh. destruct (stage_K3 fa cfg thr P C shapes Hcur sh Hsh) as (ce & Hce & E1 & E2 & E3 & Hst).
+    pose proof (P_keys_sub2 ce Hce) as Hk. rewrite E2.
+    split; [exact Hk|]. split; [exact E1|]. split; [rewrite E3; apply cnt_of_class_count2; exact Hk|].
+    intros st Hin. specialize (Hst st Hin). split; [apply (post_okR_inv2 ce st Hce Hst)|].
+    refine (post_okR_impl cfg _ _ st _ Hst). intros ty n pr c0. apply fig_src_occ2. exact Hce.
+  Qed.
 End Composed2.
 (** ** the run with separate sources, decomposed *)
 
@@ -137,12 +166,12 @@ Theorem run_shapes2_decompose fa c thr gi gf ns shapes :
     full_ns c = Some ns /\
     track (r_tau c) (mode_of c) (r_cap c) gi = inl I /\
     profile (pcfg_of c) I gf = inl (P, C, ID) /\
-    shex fa (scfg_of c ns) thr P C = inl shapes.
+    shex_cur fa (scfg_of c ns) thr P C = inl shapes.
 Proof.
   unfold run_shapes2, mode_of. destruct (full_ns c) as [ns'|]; [|discriminate].
   destruct (track _ _ _ gi) as [I|e]; [|discriminate].
   destruct (profile (pcfg_of c) I gf) as [[[P C] ID]|[|]] eqn:EP; try discriminate.
-  destruct (shex fa (scfg_of c ns') thr P C) as [sh|e] eqn:ES; [|discriminate].
+  destruct (shex_cur fa (scfg_of c ns') thr P C) as [sh|e] eqn:ES; [|discriminate].
   intros H. injection H as -> ->. exists I, P, C, ID. auto.
 Qed.
 
@@ -162,7 +191,7 @@ Theorem e2e2_figures fa c thr gi gf ns shapes :
 Proof.
   intros H. apply run_shapes2_decompose in H. destruct H as (I & P & C & ID & _ & HT & HP & HS).
   exists I. split; [exact HT|]. intros sh Hsh.
-  apply (composed_shape2 fa c gf ns I P C ID (proj1 (track_insts_ok _ _ _ _ _ HT)) HP thr shapes HS sh Hsh).
+  apply (composed_shape2_cur fa c gf ns I P C ID (proj1 (track_insts_ok _ _ _ _ _ HT)) HP thr shapes HS sh Hsh).
 Qed.
 
 (** ** class lists of the capped dictionary *)
@@ -214,6 +243,41 @@ Theorem cap_figures_exact fa c thr g ns shapes :
         (s_inv st = true -> r_inverse c = true) /\
         post_okR (scfg_of c ns) (fig_occ (r_tau c) I g (dir_of (s_inv st)) (sh_class sh) (s_prop st)) st.
 Proof.
+  intros Hk Hnd Hf H k. subst k.
+  destruct (e2e_figures fa c thr g ns shapes H) as (I & HT & HS).
+  pose proof (memberships_NoDup (r_tau c) (scope_of (mode_of c)) g Hnd Hf) as Hms.
+  assert (Esc : scope_of (mode_of c) = r_targets c) by (rewrite mode_of_is_mode_of_cfg; apply scope_of_mode_of_cfg).
+  pose proof (cap_firstn _ _ _ _ _ Hk Hms HT) as Hfirst. rewrite Esc in Hfirst.
+  exists I. split; [exact HT|]. split; [|split].
+  - intros z Hz. pose proof (cap_is_restriction (r_tau c) (mode_of c) (r_cap c) g z Hk Hz Hms) as E.
+    rewrite Esc in E. rewrite <- E. exact HT.
+  - intros cl i. apply (Hfirst cl).
+  - intros sh Hsh. destruct (HS sh Hsh) as (_ & _ & En & Hall).
+    split; [|split; [exact En | exact Hall]].
+    rewrite En. pose proof (track_cap_is_build _ _ _ _ _ Hk Hms HT) as HI.
+    rewrite (class_count_inst_of I (sh_class sh)).
+    + f_equal. apply (Hfirst (sh_class sh)).
+    + apply (build_class_lists_nodup _ I (NoDup_filter _ _ Hms) HI).
+Qed.
+
+(** the same for the one-document run with the shexing stage in the order the
+    code has *)
+Theorem cap_figures_exact_cur fa c thr g ns shapes :
+  (0 < r_cap c)%Z -> NoDup g -> ids_faithful g ->
+  run_shapes_cur fa c thr g = inl (ns, shapes) ->
+  let k := Z.to_nat (r_cap c) in
+  exists I,
+    track (r_tau c) (mode_of c) (r_cap c) g = inl I /\
+    (forall z, (z <= 0)%Z ->
+       track (r_tau c) (mode_of c) z (restrict_typing (r_tau c) (r_targets c) k g) = inl I) /\
+    (forall cl i, In cl (classes_of I i) <-> In i (first_k_instances (r_tau c) (r_targets c) k g cl)) /\
+    forall sh, In sh shapes ->
+      sh_n sh = N.of_nat (Nat.min k (List.length (class_subjects (r_tau c) (r_targets c) g (sh_class sh)))) /\
+      sh_n sh = class_count I (sh_class sh) /\
+      forall st, In st (sh_stmts sh) ->
+        (s_inv st = true -> r_inverse c = true) /\
+        post_okR (scfg_of c ns) (fig_occ (r_tau c) I g (dir_of (s_inv st)) (sh_class sh) (s_prop st)) st.
+Proof.
   intros Hk Hnd Hf H k. subst k. rewrite run_shapes_is_run_shapes2 in H.
   destruct (e2e2_figures fa c thr g g ns shapes H) as (I & HT & HS).
   pose proof (memberships_NoDup (r_tau c) (scope_of (mode_of c)) g Hnd Hf) as Hms.
@@ -235,6 +299,6 @@ Qed.
     of the uncapped run whose instance pass reads the restricted document *)
 Theorem cap_figures_as_restricted fa c thr g z :
   (0 < r_cap c)%Z -> (z <= 0)%Z -> NoDup g -> ids_faithful g ->
-  run_shapes fa c thr g =
+  run_shapes_cur fa c thr g =
   run_shapes2 fa (with_cap c z) thr (restrict_typing (r_tau c) (r_targets c) (Z.to_nat (r_cap c)) g) g.
 Proof. intros. apply run_shapes_cap_is_restriction; assumption. Qed.
